@@ -153,7 +153,7 @@ PROPS.update({
     },
     "C11": {
         "level": "other",
-        "lean_modules": ["ApdVerif.Props.C11"],
+        "lean_modules": ["ApdVerif.Props.C11", "ApdVerif.Props.C11Settle"],
         "streams": [{"stream": "roots", "n": {"quick": 20000, "thorough": 400000}}],
         "projections": ["value", "repr", "flags", "err"],
         "oracle_tags": ["C11"],
